@@ -557,8 +557,9 @@ func ParseDSL(data string) (*OpenFgaDslListener, *OpenFgaDslErrorListener) {
 		case strings.TrimLeft(line, " ")[0:1] == "#":
 			cleanedLine = ""
 		default:
-			// (a carriage return that only blanks separate from the line end would meet the line feed once they are trimmed)
-			cleanedLine = strings.TrimRight(strings.Split(line, " #")[0], " \r")
+			// (a carriage return that only blanks separate from the line end would meet the line feed once they are trimmed;
+			// a trailing tab belongs to the line break like a trailing blank, on the last line nothing would be left to carry it)
+			cleanedLine = strings.TrimRight(strings.Split(line, " #")[0], " \t\r")
 		}
 
 		cleanedLines = append(cleanedLines, cleanedLine)
